@@ -22,7 +22,7 @@ def main():
             def run(pid):
                 vdir = os.path.join(scratch, "verif-" + pid); os.makedirs(vdir, exist_ok=True)
                 shutil.copy(os.path.join(VERIF, "known_findings.json"), vdir)
-                r = subprocess.run([os.path.join(VERIF, "bin", "htcheck"), "-p", pid, "-dir", repo, "-verif", vdir], capture_output=True, text=True, env=ENV)
+                r = subprocess.run([os.environ.get("HTCHECK", os.path.join(VERIF, "bin", "htcheck")), "-p", pid, "-dir", repo, "-verif", vdir], capture_output=True, text=True, env=ENV)
                 al = re.findall(r"^\s+(?:VIOLATED|UNDECIDED) rule=(\S+) construct=(.*?) at (\S+)\n\s+(.*)$", r.stdout, re.M)
                 if "checker could not analyse" in r.stdout:
                     al.append(("machinery", r.stdout.split("\n")[0][:200], "-", ""))
